@@ -402,7 +402,7 @@ pub fn run(ctx: &mut Ctx) {
             recent.clear();
         }
     };
-    hostile_workload(ctx, 0xC04, 1_500_000, 30_000_000, &mut sink);
+    hostile_workload(ctx, 0xC04, 4_000_000, 40_000_000, &mut sink);
     // fixed regression-style inputs named by the property text (stability cases of every format)
     if ctx.shard == 0 {
         for f in ALL_FMT {
